@@ -722,3 +722,357 @@ Example demo_completes :
   let g := mrun (demo_sched ++ concat (repeat [Run 0 0; Run 1 0; Run 2 0] 40)) (init [2; 1; 1]%nat) in
   map lpc (th g) = [PDone; PDone; PDone] /\ data (sh g) = 4 /\ key (sh g) = 0 /\ waitset (sh g) = [].
 Proof. vm_compute. auto. Qed.
+
+(** ---- possibility of acquisition from every reachable state (EF liveness) ---- *)
+
+Definition no_spur (sched : list event) : Prop :=
+  Forall (fun e => match e with Run _ _ => True | Spur _ => False end) sched.
+
+Definition same_others (g g' : mstate) (h : nat) : Prop :=
+  forall t' x, t' <> h -> (at_ g' t' x <-> at_ g t' x).
+
+Lemma same_others_refl g h : same_others g g h.
+Proof. intros t' x _. tauto. Qed.
+
+Lemma Inv_exec g e : Inv g -> Inv (exec tid_of step g e).
+Proof.
+  intros HI. unfold exec. destruct (gstep tid_of step e g) eqn:E; auto. eapply step_preserves; eauto.
+Qed.
+
+Lemma Inv_mrun sched : forall g, Inv g -> Inv (mrun sched g).
+Proof.
+  induction sched as [|e r IH]; intros g HI; auto.
+  unfold mrun in *. cbn [run fold_left]. apply IH. apply Inv_exec; auto.
+Qed.
+
+Lemma mrun_app s1 s2 g : mrun (s1 ++ s2) g = mrun s2 (mrun s1 g).
+Proof. apply run_app. Qed.
+
+Lemma mrun_one e g : mrun [e] g = exec tid_of step g e.
+Proof. reflexivity. Qed.
+
+Lemma no_spur_app a b : no_spur a -> no_spur b -> no_spur (a ++ b).
+Proof. unfold no_spur. intros. apply Forall_app; auto. Qed.
+
+Lemma no_spur_one t c : no_spur [Run t c].
+Proof. repeat constructor. Qed.
+
+Lemma no_spur_solo t k : no_spur (solo t k).
+Proof. unfold solo, no_spur. induction k; cbn; constructor; auto. Qed.
+
+(** Effect of one enabled [Run] event. *)
+Lemma exec_run_frame (g : mstate) t c l l' s' :
+  at_ g t l -> tstep t c l (sh g) = Some (l', s') ->
+  let g' := exec tid_of step g (Run t c) in
+  sh g' = s' /\ at_ g' t l' /\ same_others g g' t.
+Proof.
+  intros Hat Hst g'. subst g'. rewrite (exec_run g t c l l' s' Hat Hst). cbn [sh]. split; auto. split.
+  - eapply at_upd_same; eauto.
+  - intros t' x Hne. unfold at_. cbn [th]. rewrite nth_error_upd_other by congruence. tauto.
+Qed.
+
+Lemma same_others_trans g1 g2 g3 h :
+  same_others g1 g2 h -> same_others g2 g3 h -> same_others g1 g3 h.
+Proof. intros H1 H2 t' x Hne. rewrite (H2 t' x Hne). apply H1; auto. Qed.
+
+(** H1: the holder runs up to and including its unlock swap. *)
+Lemma holder_releases g :
+  Inv g -> key (sh g) <> 0 ->
+  exists h k, (k <= 3)%nat /\ (exists l0, at_ g h l0 /\ holdingb (lpc l0) = true) /\
+    let g' := mrun (solo h k) g in
+    key (sh g') = 0 /\ waitset (sh g') = waitset (sh g) /\ same_others g g' h
+    /\ (key (sh g) = 2 -> exists lh, at_ g' h lh /\ lpc lh = PWake)
+    /\ (forall lh, at_ g' h lh -> holdingb (lpc lh) = false /\ carrierb h lh (sh g') = (key (sh g) =? 2)).
+Proof.
+  intros HI Hk. destruct (inv_held _ _ HI Hk) as (h & l & Hat & Hh). exists h.
+  assert (Hunlock : forall (g0 : mstate) l0, Inv g0 -> at_ g0 h l0 -> lpc l0 = PUnlock -> key (sh g0) <> 0 ->
+          let g' := mrun (solo h 1) g0 in
+          key (sh g') = 0 /\ waitset (sh g') = waitset (sh g0) /\ same_others g0 g' h
+          /\ (key (sh g0) = 2 -> exists lh, at_ g' h lh /\ lpc lh = PWake)
+          /\ (forall lh, at_ g' h lh -> holdingb (lpc lh) = false /\ carrierb h lh (sh g') = (key (sh g0) =? 2))).
+  { intros g0 l0 HI0 Hat0 Hpc0 Hk0 g'. subst g'. cbn [solo repeat]. rewrite mrun_one.
+    pose proof (inv_key _ _ HI0) as Hkey.
+    assert (exists l1, tstep h 0 l0 (sh g0) = Some (l1, set_key (sh g0) 0)
+             /\ holdingb (lpc l1) = false /\ (key (sh g0) = 2 -> lpc l1 = PWake)
+             /\ (key (sh g0) <> 2 -> lpc l1 = PDone \/ lpc l1 = PLockCas)) as (l1 & Hst & Hnh & Hw & Hnw).
+    { unfold tstep. rewrite Hpc0.
+      change mutex_unlocked with 0%N. change mutex_sleeping with 2%N. change mutex_locked with 1%N.
+      destruct (N.eqb_spec (key (sh g0)) 0); [congruence|].
+      destruct (N.eqb_spec (key (sh g0)) 2).
+      - eexists. split; [reflexivity|]. cbn. split; auto. split; auto. congruence.
+      - destruct (N.eqb_spec (key (sh g0)) 1); [|lia].
+        eexists. split; [reflexivity|]. destruct (next_iter_pc l0) as [E|E]; rewrite E; cbn; split; auto. split; [congruence|auto]. split; [congruence|auto]. }
+    destruct (exec_run_frame g0 h 0%nat l0 l1 _ Hat0 Hst) as (Hs & Hat1 & Hso).
+    rewrite Hs. cbn [key set_key waitset].
+    split; [reflexivity|]. split; [reflexivity|]. split; [exact Hso|]. split; [intros E; exists l1; auto|].
+    intros lh Hlh. pose proof (at_fun _ _ _ _ Hlh Hat1). subst lh. split; auto.
+    unfold carrierb. destruct (N.eqb_spec (key (sh g0)) 2) as [E|E].
+    + rewrite (Hw E). reflexivity.
+    + destruct (Hnw E) as [E1|E1]; rewrite E1; reflexivity. }
+  assert (Hstep : forall (g0 : mstate) l0 l1, at_ g0 h l0 -> tstep h 0 l0 (sh g0) = Some (l1, sh g0) ->
+            let g1 := exec tid_of step g0 (Run h 0) in
+            sh g1 = sh g0 /\ at_ g1 h l1 /\ same_others g0 g1 h).
+  { intros g0 l0 l1 Hat0 Hst0. apply (exec_run_frame g0 h 0%nat l0 l1 (sh g0) Hat0 Hst0). }
+  destruct (lpc l) eqn:Hpc; try discriminate.
+  - (* PCrit0: two local steps, then the swap *)
+    exists 3%nat. split; [lia|]. split; [exists l; rewrite Hpc; auto|].
+    assert (S1 : tstep h 0 l (sh g) = Some (L PCrit1 (wait l) (data (sh g)) (iters l), sh g)).
+    { unfold tstep. rewrite Hpc. reflexivity. }
+    destruct (exec_run_frame g h 0%nat _ _ _ Hat S1) as (E1 & A1 & F1).
+    set (g1 := exec tid_of step g (Run h 0)) in *.
+    assert (HI1 : Inv g1) by (apply Inv_exec; auto).
+    assert (S2 : tstep h 0 (L PCrit1 (wait l) (data (sh g)) (iters l)) (sh g1)
+                 = Some (set_pc (L PCrit1 (wait l) (data (sh g)) (iters l)) PUnlock,
+                         S (key (sh g1)) (data (sh g) + 1) (waitset (sh g1)))).
+    { unfold tstep. cbn [lpc tmp]. reflexivity. }
+    destruct (exec_run_frame g1 h 0%nat _ _ _ A1 S2) as (E2 & A2 & F2).
+    set (g2 := exec tid_of step g1 (Run h 0)) in *.
+    assert (HI2 : Inv g2) by (apply Inv_exec; auto).
+    assert (K2 : key (sh g2) = key (sh g) /\ waitset (sh g2) = waitset (sh g)).
+    { rewrite E2. cbn [key waitset]. rewrite E1. auto. }
+    destruct K2 as [K2 W2].
+    destruct (Hunlock g2 _ HI2 A2 eq_refl ltac:(congruence)) as (R1 & R2 & R3 & R4 & R5).
+    change (mrun (solo h 3) g) with (mrun (solo h 1) g2).
+    cbv zeta. rewrite R1, R2, W2.
+    split; [reflexivity|]. split; [reflexivity|]. split.
+    { eapply same_others_trans; [exact F1|]. eapply same_others_trans; [exact F2|exact R3]. }
+    split; [intros E; apply R4; congruence|].
+    intros lh Hlh. rewrite <- K2. apply R5; auto.
+  - (* PCrit1 *)
+    exists 2%nat. split; [lia|]. split; [exists l; rewrite Hpc; auto|].
+    assert (S2 : tstep h 0 l (sh g) = Some (set_pc l PUnlock, S (key (sh g)) (tmp l + 1) (waitset (sh g)))).
+    { unfold tstep. rewrite Hpc. reflexivity. }
+    destruct (exec_run_frame g h 0%nat _ _ _ Hat S2) as (E2 & A2 & F2).
+    set (g2 := exec tid_of step g (Run h 0)) in *.
+    assert (HI2 : Inv g2) by (apply Inv_exec; auto).
+    assert (K2 : key (sh g2) = key (sh g) /\ waitset (sh g2) = waitset (sh g)).
+    { rewrite E2. cbn [key waitset]. auto. }
+    destruct K2 as [K2 W2].
+    destruct (Hunlock g2 _ HI2 A2 eq_refl ltac:(congruence)) as (R1 & R2 & R3 & R4 & R5).
+    change (mrun (solo h 2) g) with (mrun (solo h 1) g2).
+    cbv zeta. rewrite R1, R2, W2.
+    split; [reflexivity|]. split; [reflexivity|]. split.
+    { eapply same_others_trans; [exact F2|exact R3]. }
+    split; [intros E; apply R4; congruence|].
+    intros lh Hlh. rewrite <- K2. apply R5; auto.
+  - (* PUnlock *)
+    exists 1%nat. split; [lia|]. split; [exists l; rewrite Hpc; auto|]. apply (Hunlock g l HI Hat Hpc Hk).
+Qed.
+
+Definition rank (p : pc) : nat :=
+  match p with
+  | PLockCas | PSpinCas _ | PSwap => 1
+  | PSpinLoad _ => 2
+  | PYield _ | PFutexWait | PSleeping => 3
+  | _ => 0
+  end.
+
+Lemma solo_step_free2 (g : mstate) t l :
+  Inv g -> at_ g t l -> key (sh g) = 0 -> lockingb (lpc l) = true -> asleepb t l (sh g) = false ->
+  exists l' s', tstep t 0 l (sh g) = Some (l', s') /\ waitset s' = waitset (sh g)
+    /\ ((holdingb (lpc l') = true /\ (carrierb t l (sh g) = true -> key s' = 2))
+        \/ (key s' = 0 /\ lockingb (lpc l') = true /\ asleepb t l' s' = false
+            /\ (carrierb t l (sh g) = true -> carrierb t l' s' = true)
+            /\ (rank (lpc l') < rank (lpc l))%nat)).
+Proof.
+  intros HI Hat Hk Hl Ha. unfold asleepb in Ha.
+  pose proof (inv_wait2 _ _ HI _ _ Hat) as Hw2.
+  unfold tstep, carrierb.
+  change mutex_unlocked with 0%N. change mutex_sleeping with 2%N. change mutex_locked with 1%N.
+  destruct (lpc l) eqn:Hpc; try discriminate; rewrite ?Hk; cbn [N.eqb].
+  - eexists _, _. split; [reflexivity|]. split; [reflexivity|]. left. split; auto. discriminate.
+  - eexists _, _. split; [reflexivity|]. split; [reflexivity|]. right. cbn. rewrite Hk. repeat split; auto; lia.
+  - eexists _, _. split; [reflexivity|]. split; [reflexivity|]. left. split; auto.
+    cbn. intros E. apply N.eqb_eq in E. auto.
+  - eexists _, _. split; [reflexivity|]. split; [reflexivity|]. right. cbn. rewrite Hk. repeat split; auto; lia.
+  - eexists _, _. split; [reflexivity|]. split; [reflexivity|]. left. split; auto.
+  - change (0 =? 2) with false. cbv iota.
+    eexists _, _. split; [reflexivity|]. split; [reflexivity|]. right. rewrite spin_at_0. cbn. rewrite Hk.
+    rewrite Hw2 by auto. repeat split; auto; lia.
+  - rewrite Ha.
+    eexists _, _. split; [reflexivity|]. split; [reflexivity|]. right. rewrite spin_at_0. cbn. rewrite Hk.
+    rewrite Hw2 by auto. repeat split; auto; lia.
+Qed.
+
+(** H2: with the lock free, an awake waiter acquires by running alone. *)
+Lemma solo_acquire : forall (r : nat) (g : mstate) t l,
+  (rank (lpc l) <= r)%nat ->
+  Inv g -> at_ g t l -> key (sh g) = 0 -> lockingb (lpc l) = true -> asleepb t l (sh g) = false ->
+  exists k l', let g' := mrun (solo t k) g in
+    at_ g' t l' /\ holdingb (lpc l') = true /\ waitset (sh g') = waitset (sh g)
+    /\ same_others g g' t /\ (carrierb t l (sh g) = true -> key (sh g') = 2).
+Proof.
+  induction r as [|r IH]; intros g t l Hr HI Hat Hk Hl Ha.
+  { exfalso. destruct (lpc l); cbn in Hr, Hl; try discriminate; lia. }
+  destruct (solo_step_free2 g t l HI Hat Hk Hl Ha) as (l1 & s1 & Hst & Hws & Hcase).
+  destruct (exec_run_frame g t 0%nat l l1 s1 Hat Hst) as (E1 & A1 & F1).
+  set (g1 := exec tid_of step g (Run t 0)) in *.
+  destruct Hcase as [[Hh Hc]|(Hk1 & Hl1 & Ha1 & Hc1 & Hrk)].
+  - exists 1%nat, l1. cbn [solo repeat]. rewrite mrun_one. fold g1. rewrite E1. auto.
+  - assert (HI1 : Inv g1) by (apply Inv_exec; auto).
+    destruct (IH g1 t l1) as (k & l2 & A2 & Hh2 & W2 & F2 & C2); auto; try lia; try (rewrite E1; auto).
+    exists (Datatypes.S k), l2. change (mrun (solo t (Datatypes.S k)) g) with (mrun (solo t k) g1).
+    cbv zeta in *. split; auto. split; auto. split; [rewrite W2, E1; auto|]. split.
+    + eapply same_others_trans; eauto.
+    + intros C. apply C2. rewrite E1. auto.
+Qed.
+
+(** H3: a pending [futex_wake] can wake any given sleeper. *)
+Lemma index_of t w : In t w -> exists c, (c < length w)%nat /\ nth c w O = t.
+Proof. intros H. destruct (In_nth _ _ O H) as (c & Hc & E). eauto. Qed.
+
+Lemma wake_target (g : mstate) w lw t :
+  Inv g -> at_ g w lw -> lpc lw = PWake -> In t (waitset (sh g)) ->
+  exists c, let g' := exec tid_of step g (Run w c) in
+    key (sh g') = key (sh g) /\ ~ In t (waitset (sh g')) /\ same_others g g' w
+    /\ (forall x, In x (waitset (sh g')) -> In x (waitset (sh g))).
+Proof.
+  intros HI Hat Hpc Hin. destruct (index_of _ _ Hin) as (c & Hc & E). exists c.
+  assert (Hst : tstep w c lw (sh g) = Some (next_iter lw, set_ws (sh g) (wake_one c (waitset (sh g))))).
+  { unfold tstep. rewrite Hpc. reflexivity. }
+  destruct (exec_run_frame g w c lw _ _ Hat Hst) as (E1 & A1 & F1).
+  cbv zeta. rewrite E1. cbn [key set_ws waitset]. split; auto. split; [|split; auto].
+  - unfold wake_one. destruct (waitset (sh g)) eqn:Ew; [destruct Hin|]. rewrite <- Ew in *.
+    rewrite Nat.mod_small by auto. rewrite E. intros H. apply remove_tid_In in H. tauto.
+  - intros x. apply wake_one_In.
+Qed.
+
+Lemma pc_eq_PWake p : p = PWake \/ p <> PWake.
+Proof. destruct p; auto; right; discriminate. Qed.
+
+Lemma carrier_locking t l s :
+  carrierb t l s = true -> lpc l <> PWake -> lockingb (lpc l) = true /\ asleepb t l s = false.
+Proof.
+  unfold carrierb, asleepb. destruct (lpc l); intros H Hn; try discriminate; try congruence; auto.
+  split; auto. apply Bool.negb_true_iff in H. auto.
+Qed.
+
+Lemma holding_not_locking p : holdingb p = true -> lockingb p = true -> False.
+Proof. destruct p; cbn; discriminate. Qed.
+
+(** W1: if the word is SLEEPING, the holder's release can wake any given sleeper. *)
+Lemma wake_from_sleeping_word g t l :
+  Inv g -> at_ g t l -> asleepb t l (sh g) = true -> key (sh g) = 2 ->
+  exists sched', no_spur sched' /\
+    let g' := mrun sched' g in at_ g' t l /\ asleepb t l (sh g') = false /\ key (sh g') = 0.
+Proof.
+  intros HI Hat Ha Hk.
+  assert (Hpc : lpc l = PSleeping /\ In t (waitset (sh g))).
+  { unfold asleepb in Ha. destruct (lpc l); try discriminate. split; auto. apply memb_In; auto. }
+  destruct Hpc as [Hpc Hin].
+  destruct (holder_releases g HI ltac:(lia)) as (h & k & _ & (l0 & Hat0 & Hh0) & R).
+  cbv zeta in R. destruct R as (K1 & W1 & F1 & P1 & _).
+  set (g1 := mrun (solo h k) g) in *.
+  assert (Hne : t <> h).
+  { intros ->. pose proof (at_fun _ _ _ _ Hat Hat0). subst l0. rewrite Hpc in Hh0. discriminate. }
+  destruct (P1 Hk) as (lh & Ath & Hpw).
+  assert (HI1 : Inv g1) by (apply Inv_mrun; auto).
+  destruct (wake_target g1 h lh t HI1 Ath Hpw ltac:(rewrite W1; auto)) as (c & R2).
+  cbv zeta in R2. destruct R2 as (K2 & N2 & F2 & _).
+  exists (solo h k ++ [Run h c]). split.
+  { apply no_spur_app; [apply no_spur_solo|apply no_spur_one]. }
+  cbv zeta. rewrite mrun_app. fold g1. rewrite mrun_one. split.
+  - apply F2; auto. apply F1; auto.
+  - split; [|congruence]. unfold asleepb. rewrite Hpc. apply memb_false. auto.
+Qed.
+
+(** W2/W3: otherwise a carrier exists; it can be run until the word is SLEEPING. *)
+Lemma wake_possible g t l :
+  Inv g -> at_ g t l -> asleepb t l (sh g) = true ->
+  exists sched', no_spur sched' /\
+    let g' := mrun sched' g in at_ g' t l /\ asleepb t l (sh g') = false.
+Proof.
+  intros HI Hat Ha.
+  assert (Hpc : lpc l = PSleeping /\ In t (waitset (sh g))).
+  { unfold asleepb in Ha. destruct (lpc l); try discriminate. split; auto. apply memb_In; auto. }
+  destruct Hpc as [Hpc Hin].
+  assert (Hne : waitset (sh g) <> []) by (intros E; rewrite E in Hin; destruct Hin).
+  destruct (inv_nlw _ _ HI Hne) as [Hk|(u & lu & Atu & Hc)].
+  { destruct (wake_from_sleeping_word g t l HI Hat Ha Hk) as (s' & Hns & A & B & _). exists s'. auto. }
+  destruct (N.eq_dec (key (sh g)) 2) as [Hk2|Hk2].
+  { destruct (wake_from_sleeping_word g t l HI Hat Ha Hk2) as (s' & Hns & A & B & _). exists s'. auto. }
+  assert (Hut : u <> t).
+  { intros ->. pose proof (at_fun _ _ _ _ Hat Atu). subst lu. unfold carrierb in Hc. rewrite Hpc in Hc.
+    apply Bool.negb_true_iff in Hc. apply memb_false in Hc. auto. }
+  destruct (pc_eq_PWake (lpc lu)) as [Hw|Hw].
+  { (* a wake-up is pending: aim it at t *)
+    destruct (wake_target g u lu t HI Atu Hw Hin) as (c & R). cbv zeta in R. destruct R as (_ & N & F & _).
+    exists [Run u c]. split; [apply no_spur_one|]. cbv zeta. rewrite mrun_one. split.
+    - apply F; auto.
+    - unfold asleepb. rewrite Hpc. apply memb_false; auto. }
+  (* u is awake inside sys_lock and will write SLEEPING when it acquires *)
+  destruct (carrier_locking _ _ _ Hc Hw) as [Hlu Hau].
+  (* first make the word 0 *)
+  assert (Hfree : exists s0, no_spur s0 /\ let g0 := mrun s0 g in
+            key (sh g0) = 0 /\ waitset (sh g0) = waitset (sh g) /\ at_ g0 t l /\ at_ g0 u lu).
+  { destruct (N.eq_dec (key (sh g)) 0) as [Hk0|Hk0].
+    - exists []. split; [constructor|]. cbv zeta. auto.
+    - destruct (holder_releases g HI Hk0) as (h & k & _ & (l0 & Hat0 & Hh0) & R).
+      cbv zeta in R. destruct R as (K1 & W1 & F1 & _).
+      exists (solo h k). split; [apply no_spur_solo|]. cbv zeta. split; auto. split; auto. split.
+      + apply F1; auto. intros ->. pose proof (at_fun _ _ _ _ Hat Hat0). subst l0. rewrite Hpc in Hh0. discriminate.
+      + apply F1; auto. intros ->. pose proof (at_fun _ _ _ _ Atu Hat0). subst l0.
+        eapply holding_not_locking; eauto. }
+  destruct Hfree as (s0 & Hns0 & R0). cbv zeta in R0. destruct R0 as (K0 & W0 & At0 & Au0).
+  set (g0 := mrun s0 g) in *.
+  assert (HI0 : Inv g0) by (apply Inv_mrun; auto).
+  assert (Hc0 : carrierb u lu (sh g0) = true) by (rewrite (carrierb_ws _ _ _ _ W0); auto).
+  assert (Hau0 : asleepb u lu (sh g0) = false) by (unfold asleepb in *; rewrite W0; auto).
+  destruct (solo_acquire 3 g0 u lu) as (k & lu' & R1); auto.
+  { destruct (lpc lu); cbn; lia. }
+  cbv zeta in R1. destruct R1 as (Au1 & Hh1 & W1 & F1 & C1).
+  set (g1 := mrun (solo u k) g0) in *.
+  assert (HI1 : Inv g1) by (apply Inv_mrun; auto).
+  assert (At1 : at_ g1 t l) by (apply F1; auto).
+  assert (Ha1 : asleepb t l (sh g1) = true) by (unfold asleepb in *; rewrite W1, W0; auto).
+  destruct (wake_from_sleeping_word g1 t l HI1 At1 Ha1 (C1 Hc0)) as (s2 & Hns2 & A2 & B2 & _).
+  exists (s0 ++ solo u k ++ s2). split.
+  { apply no_spur_app; auto. apply no_spur_app; auto. apply no_spur_solo. }
+  cbv zeta. rewrite !mrun_app. fold g0. fold g1. auto.
+Qed.
+
+(** From every state of the invariant (hence from every reachable state), a
+    thread that is inside [sys_lock] — spinning, about to sleep, or asleep —
+    has a continuation without spurious wake-ups in which it acquires. *)
+Lemma acquire_possible_inv g t l :
+  Inv g -> at_ g t l -> lockingb (lpc l) = true ->
+  exists sched', no_spur sched' /\ exists l', at_ (mrun sched' g) t l' /\ holdingb (lpc l') = true.
+Proof.
+  intros HI Hat Hl.
+  (* wake t up if it sleeps *)
+  assert (Hawake : exists s1, no_spur s1 /\ let g1 := mrun s1 g in at_ g1 t l /\ asleepb t l (sh g1) = false).
+  { destruct (asleepb t l (sh g)) eqn:Ha.
+    - apply wake_possible; auto.
+    - exists []. split; [constructor|]. cbv zeta. auto. }
+  destruct Hawake as (s1 & Hns1 & R1). cbv zeta in R1. destruct R1 as (At1 & Ha1).
+  set (g1 := mrun s1 g) in *.
+  assert (HI1 : Inv g1) by (apply Inv_mrun; auto).
+  (* free the lock *)
+  assert (Hfree : exists s2, no_spur s2 /\ let g2 := mrun s2 g1 in
+            key (sh g2) = 0 /\ at_ g2 t l /\ asleepb t l (sh g2) = false).
+  { destruct (N.eq_dec (key (sh g1)) 0) as [Hk0|Hk0].
+    - exists []. split; [constructor|]. cbv zeta. auto.
+    - destruct (holder_releases g1 HI1 Hk0) as (h & k & _ & (l0 & Hat0 & Hh0) & R).
+      cbv zeta in R. destruct R as (K & W & F & _).
+      exists (solo h k). split; [apply no_spur_solo|]. cbv zeta. split; auto. split.
+      + apply F; auto. intros ->. pose proof (at_fun _ _ _ _ At1 Hat0). subst l0.
+        eapply holding_not_locking; eauto.
+      + unfold asleepb in *. rewrite W. auto. }
+  destruct Hfree as (s2 & Hns2 & R2). cbv zeta in R2. destruct R2 as (K2 & At2 & Ha2).
+  set (g2 := mrun s2 g1) in *.
+  assert (HI2 : Inv g2) by (apply Inv_mrun; auto).
+  destruct (solo_acquire 3 g2 t l) as (k & l' & R3); auto.
+  { destruct (lpc l); cbn; lia. }
+  cbv zeta in R3. destruct R3 as (At3 & Hh3 & _).
+  exists (s1 ++ s2 ++ solo t k). split.
+  { apply no_spur_app; auto. apply no_spur_app; auto. apply no_spur_solo. }
+  exists l'. rewrite !mrun_app. fold g1. fold g2. auto.
+Qed.
+
+Definition acquire_possible_stmt : Prop :=
+  forall (ns : list nat) (sched : list event) (t : nat) (l : local),
+  let g := mrun sched (init ns) in
+  at_ g t l -> lockingb (lpc l) = true ->
+  exists sched', no_spur sched' /\ exists l', at_ (mrun sched' g) t l' /\ holdingb (lpc l') = true.
+Lemma acquire_possible_proof : acquire_possible_stmt.
+Proof. intros ns sched t l g. apply acquire_possible_inv. apply Inv_run. Qed.
